@@ -181,6 +181,43 @@ func judgeC13(rec *stats.Rec, c c13Case, cli string) (string, string) {
 		if err := json.Unmarshal(b, &s); err == nil {
 			return "unknown-source-accepted|json", fmt.Sprintf("JSON decoding accepts unknown source %q", c.Token)
 		}
+	case "accepted-is-known":
+		// whatever a decoder accepts must be one of the known sources - otherwise an
+		// unknown source has been let in silently (it selects and excludes nothing)
+		isKnown := func(x lint.LintSource) bool {
+			for _, k := range knownSourceNames {
+				if string(x) == k {
+					return true
+				}
+			}
+			return false
+		}
+		var s lint.LintSource
+		b, _ := json.Marshal(c.Token)
+		if err := json.Unmarshal(b, &s); err == nil && !isKnown(s) {
+			return "unknown-source-accepted|json-value", fmt.Sprintf("JSON decoding of %q succeeds and yields %q, which is not a known source", c.Token, string(s))
+		}
+		var sl lint.SourceList
+		if err := json.Unmarshal([]byte("["+string(b)+"]"), &sl); err == nil {
+			for _, x := range sl {
+				if !isKnown(x) {
+					return "unknown-source-accepted|json-list-value", fmt.Sprintf("JSON decoding of [%q] succeeds and yields %q, which is not a known source", c.Token, string(x))
+				}
+			}
+		}
+		var s2 lint.LintSource
+		s2.FromString(c.Token)
+		if s2 != lint.UnknownLintSource && !isKnown(s2) {
+			return "unknown-source-accepted|fromstring-value", fmt.Sprintf("LintSource.FromString(%q) = %q, neither Unknown nor a known source", c.Token, string(s2))
+		}
+		var sl2 lint.SourceList
+		if err := sl2.FromString(c.Token); err == nil {
+			for _, x := range sl2 {
+				if !isKnown(x) {
+					return "unknown-source-accepted|list-value", fmt.Sprintf("SourceList.FromString(%q) yields %q, which is not a known source", c.Token, string(x))
+				}
+			}
+		}
 	case "cli-unknown":
 		if cli == "" {
 			return "", ""
@@ -275,8 +312,21 @@ func TestC13(t *testing.T) {
 	for _, s := range sources {
 		known[s] = true
 	}
-	for _, s := range []string{"RFC3279", "RFC5280", "RFC5480", "RFC5891", "RFC6960", "RFC6962", "RFC8813", "CABF_BR", "CABF_CS_BR", "CABF_SMIME_BR", "CABF_EV", "Mozilla", "Apple", "Community", "ETSI_ESI"} {
+	for _, s := range knownSourceNames {
 		known[s] = true // source constants without lints are still "known sources"
+	}
+	// every known source with stray blanks around it: accepted or not, never let in as a foreign value
+	for _, s := range knownSourceNames {
+		for _, pad := range [][2]string{{" ", ""}, {"", " "}, {"\t", "\n"}, {"  ", "  "}, {"", "\r\n"}, {"", ","}, {",", ""}} {
+			rec.Eval()
+			c := c13Case{What: "accepted-is-known", Token: pad[0] + s + pad[1]}
+			rec.NT(stats.HashS(c.What, c.Token))
+			if sig, msg := judgeC13(rec, c, cli); msg != "" {
+				if rec.Report("c13", sig, msg, c) {
+					t.Errorf("c13 %s: %s", sig, msg)
+				}
+			}
+		}
 	}
 	cliBudget := stats.Scale(30, 600) / func() int { _, n := stats.Shard(); return n }()
 	if cliBudget < 2 {
@@ -298,6 +348,18 @@ func TestC13(t *testing.T) {
 			tok = rapid.StringMatching(`[A-Za-z0-9_.:/-]{1,16}`).Draw(rt, "rnd")
 		default:
 			tok = rapid.SampledFrom([]string{"Unknown", "unknown", "RFC", "CABF", "cabf_br", "e_", "w_", "n_", "*", ".*", "all", "ZLint", "RFC 5280", "CABF-BR"}).Draw(rt, "fixed")
+		}
+		{
+			pad := rapid.SampledFrom([]string{"", " ", "\t", "\n", "  ", "\u00a0", "\x00"})
+			c := c13Case{What: "accepted-is-known", Token: pad.Draw(rt, "padl") + tok + pad.Draw(rt, "padr")}
+			if rapid.Bool().Draw(rt, "ofknown") {
+				c.Token = pad.Draw(rt, "padl2") + rapid.SampledFrom(knownSourceNames).Draw(rt, "ks") + pad.Draw(rt, "padr2")
+			}
+			rec.Eval()
+			rec.Class(c.What)
+			if sig, msg := judgeC13(rec, c, cli); msg != "" {
+				fail(rt, rec, "c13", sig, msg, c)
+			}
 		}
 		if known[strings.TrimSpace(tok)] || strings.TrimSpace(tok) == "" || strings.Contains(tok, ",") {
 			return
@@ -321,6 +383,28 @@ func TestC13(t *testing.T) {
 		}
 	})
 }
+
+// the source constants of v3/lint/source.go (harvested for C12; the listing here is
+// what the statement calls "known sources", with or without lints)
+var knownSourceNames = func() []string {
+	out := []string{"RFC3279", "RFC5280", "RFC5480", "RFC5891", "RFC6960", "RFC6962", "RFC8813", "CABF_BR", "CABF_CS_BR", "CABF_SMIME_BR", "CABF_EV", "Mozilla", "Apple", "Community", "ETSI_ESI"}
+	if m, err := knownSources(); err == nil && len(m) > 0 {
+		// the constants of the current tree (a source added later is known too)
+		have := map[string]bool{}
+		for _, s := range out {
+			have[s] = true
+		}
+		var extra []string
+		for s := range m {
+			if !have[s] && s != string(lint.UnknownLintSource) {
+				extra = append(extra, s)
+			}
+		}
+		sort.Strings(extra)
+		out = append(out, extra...)
+	}
+	return out
+}()
 
 func init() {
 	registerReplayer("c13", func(rec *stats.Rec, raw json.RawMessage) (string, string) {
